@@ -230,7 +230,7 @@ pub fn run(env: &Env, rep: &Report) {
     run_level_a(env, rep);
     rep.assume("level B: weights recomputed in f64 from the observable pre-call state (last posterior box, raw Kalman state) - IoU x max(conf, min_conf) kept when >= threshold, or (100 - d^2)/conf inside the chi-square gate and bounding-circle reach; calls with a decision within 1e-4 of a threshold are counted as band and not asserted");
     let pool = IsoPool::new(&env.prop, "tracker", std::time::Duration::from_secs(120));
-    let n = env.tier.pick(3_000, 60_000);
+    let n = env.tier.pick(6_000, 80_000);
     for kind in [crate::trk::Kind::Sort, crate::trk::Kind::BatchSort] {
         par_generated(rep, "tracker", move || crate::gen::scenes::history(kind, false, 40), n, workers(), crate::props::c01::iso_check(&pool, rep));
     }
